@@ -250,13 +250,14 @@ CLAIMED = {
    design="7 (C08)"),
  "C14": dict(
    text="Props/C14.v, for a lock model of threads that acquire and release reader/writer locks (pager lock and page latches): if every "
-        "thread's sequence follows the discipline for one rank of the objects (increasing rank, except that a shared latch already "
-        "held may be re-requested), then for EVERY schedule no reachable state is deadlocked and every step consumes one action, so "
+        "thread's sequence follows the discipline for one certificate (locks are requested in increasing class, or inside a class "
+        "while its gate - a tree's root latch - is held exclusively; a shared latch already held may be re-requested), then for "
+        "EVERY schedule no reachable state is deadlocked and every step consumes one action, so "
         "all statements finish (C14_no_deadlock, C14_completion); with parking_lot's fair read the statement is refuted "
-        "(C14_fair_read_refuted) - that deadlock was reproduced on the engine (one SELECT and one INSERT from two threads hang) and "
+        "(C14_fair_read_refuted), and the gate clause cannot be dropped (C14_coupling_rejected) - the fair-read deadlock was reproduced on the engine (one SELECT and one INSERT from two threads hang) and "
         "fixed.  On every run 150 multi-threaded histories (2-6 client threads, pools of 2-8 workers, seeded yield injection at "
         "every lock acquisition) execute; the lock tap's per-thread sequences are checked against the discipline inside Coq for a "
-        "rank certificate, which extends the no-deadlock conclusion from the observed schedule to all schedules of those sequences; "
+        "certificate computed outside, which extends the no-deadlock conclusion from the observed schedule to all schedules of those sequences; "
         "completion, absence of internal errors, final contents (= effects of the acknowledged transactions) and every read "
         "(whole transactions, a prefix of each writer's commits) are checked by a model-independent oracle.  Lost inserts of two "
         "concurrent writers of one table are a recorded finding.",
